@@ -116,6 +116,7 @@ fn trackers(cli: &Cli, rep: &mut Report) {
             steps: 40,
             low_quality: false,
             avoid_coincident: false,
+            low_conf: false,
         };
         let h = HistOpts { len: if cli.small { 6 } else { 30 + rng.usize(40) }, lifecycle_ops: false, clear_wasted: false, auto_waste_ops: false, batches: false, empty_calls: true };
         let ops = gen_history(&mut rng, &w, &h);
